@@ -198,6 +198,37 @@ Section Exact.
         apply HS; try assumption. eapply mem_bytes_differ; eassumption.
   Qed.
 
+  (* ---------------------------------------------------------------- typed environments (C06)
+     msg_mutable / the "existing" list and map accessors of the model are total: a field holding a value
+     of the wrong shape is treated as absent, where protoreflect would panic.  With separated paths this
+     never matters: every member of a run that starts from a fresh state is decoded from a state in which
+     its own field is ABSENT (so Mutable / List / Map are applied to an unpopulated field of the
+     property's own kind), at every depth, because nested bodies start from an empty sub-message
+     (P_all below).  [orun_at Q]: a run all of whose member steps start from a state satisfying Q. *)
+  Inductive orun_at (d : N) (props : list property) (Q : property -> jvalue -> msg -> Prop)
+    : list (bytes * jvalue) -> msg -> list bytes -> msg -> Prop :=
+  | oa_nil m seen : orun_at d props Q [] m seen m
+  | oa_cons kv r m seen m1 seen1 m' p f :
+      find_prop props (fst kv) = Some p ->
+      tr_member d (tr_present orc e f (d + 1) p) p (snd kv) m seen = Ok (m1, seen1) ->
+      Q p (snd kv) m -> orun_at d props Q r m1 seen1 m' -> orun_at d props Q (kv :: r) m seen m'.
+
+  Definition field_absent (p : property) (v : jvalue) (m : msg) : Prop :=
+    v <> JNull -> p_path p <> [] -> get_path (p_path p) m = None.
+
+  Theorem run_members_on_absent_fields props d : props_separate e props ->
+    forall ms m seen m', orun orc e d props ms m seen m' -> fresh props m seen ->
+    orun_at d props field_absent ms m seen m'.
+  Proof.
+    intros HS ms m seen m' R.
+    induction R as [m seen | [key0 v0] r m seen m1 seen1 m' (p & f & Ep & Em) R IH]; intros Hf; [constructor|].
+    cbn [fst snd] in Ep, Em. eapply oa_cons with (p := p) (f := f); cbn [fst snd]; try eassumption.
+    - intros Hv Hq. destruct (find_prop_In _ _ _ Ep) as [Hinp _].
+      destruct (tr_member_inv _ _ _ _ _ _ _ _ Em) as [(Hn & _) | (_ & Hns & _)]; [contradiction|].
+      apply Hf; assumption.
+    - apply IH. eapply fresh_step; eassumption.
+  Qed.
+
   (* ---------------------------------------------------------------- nothing else is stored *)
   Lemma owns_or_indep p n : owns e p n \/ indep_prop e [n] p.
   Proof.
